@@ -512,3 +512,27 @@ PROPS["C07"] = dict(
     floor=1000,
     stages=[Stage("c07", pkg="mon_stark", variant="rel"), Stage("c07", pkg="mon_stark", variant="chk", args=["--n", "22"])],
 )
+
+PROPS["C05"] = dict(
+    level="exploration",
+    rule="honest GenAir proofs (a seed-determined pool over 3 fields x 3 hashers, main-only and auxiliary, 3 extensions, "
+         "partitions, grinding) mutated with knowledge of the encoding: header bytes of every component (context incl. trace "
+         "info / modulus / options / constraint count, unique-query count, commitments, query values and openings, OOD frame, "
+         "FRI layers / remainder / partition exponent, nonce) set to boundary values, +-1, bit flips; several header bytes at "
+         "once; huge variable-length integers spliced in; truncation at any offset; deleted / duplicated ranges at component "
+         "boundaries; random bytes; splices of two proofs; random strings: Proof::from_bytes then verify under OptionSet, "
+         "MinConjecturedSecurity(0) and MinProvenSecurity(0); every component decoder and parser (TraceInfo, ProofOptions, "
+         "Context, Commitments, Queries, OodFrame, FriProof, BatchMerkleProof, digests, elements) on mutated component bytes "
+         "with random parse parameters; isolated workers under release, overflow/debug-assertion and ASan builds: a panic, "
+         "abort (allocation), signal, sanitizer report or hang is a violation; distinct = inputs",
+    assumptions=["the user-supplied AIR (GenAir) never panics itself: when the proof's trace info does not describe its "
+                 "specification it falls back to a trivial constraint system of the right shape, so every recorded panic is "
+                 "inside winterfell",
+                 "verifier code behind the commitment checks is reached only by data consistent with the commitments; deep "
+                 "reach comes from edits of fields that are not bound into the transcript (see DESIGN.md section 7)",
+                 "ByteReader primitives and collections on hostile bytes are C26's workload; batch Merkle proofs as values C19's"],
+    floor=2000,
+    stages=[Stage("c05", pkg="mon_stark", variant="rel", kind="sharded", n=(60000, 3000000), mem_gb=4, timeout=(900, 7200)),
+            Stage("c05", pkg="mon_stark", variant="chk", kind="sharded", n=(20000, 400000), mem_gb=4, timeout=(900, 7200)),
+            Stage("c05", pkg="mon_stark", variant="asan", kind="sharded", n=(6000, 200000), mem_gb=None, env=ASAN_ENV, timeout=(900, 7200))],
+)
